@@ -28,6 +28,10 @@ ArgsEcho == << A("pe", "path", "one", TRUE, FALSE), A("qe", "query", "one", TRUE
 (* macro endpoint exercising attribute forms: path parameters without `name`, log_as equal to ANOTHER parameter's template name *)
 ArgsAttrs == << A("b", "path", "one", TRUE, TRUE), A("bee", "path", "one", TRUE, FALSE), A("sea", "path", "one", TRUE, FALSE),
                 A("pq", "query", "one", TRUE, TRUE), A("hh", "header", "one", TRUE, FALSE), A("ls", "query", "many", FALSE, FALSE) >>
+(* the generated pathParams endpoint: one path parameter per PLAIN type (s and a are plain / alias-of strings: never unparsable) *)
+ArgsPath == << A("s", "path", "one", FALSE, FALSE), A("i", "path", "one", TRUE, FALSE), A("d", "path", "one", TRUE, FALSE), A("b", "path", "one", TRUE, FALSE),
+               A("u", "path", "one", TRUE, FALSE), A("r", "path", "one", TRUE, FALSE), A("l", "path", "one", TRUE, FALSE), A("t", "path", "one", TRUE, FALSE),
+               A("e", "path", "one", TRUE, TRUE), A("a", "path", "one", FALSE, FALSE) >>      \* an enum is safe by type
 ArgsIds == << A("ids", "rpath", "many", TRUE, FALSE) >>
 ArgsRegex == << A("n", "rpath", "one", TRUE, FALSE) >>
 ArgsQuery == << A("qs", "query", "one", FALSE, FALSE), A("qo", "query", "opt", TRUE, FALSE), A("ql", "query", "many", TRUE, FALSE),
